@@ -9,8 +9,8 @@ CLAIMS = {
  "C01": ("Lean theorems: every decoder on the receive path (header, typed decoders, SnmpValue, relative OID, PDUs, v1/v2c/v3 messages, USM, scoped PDU, msgData, DES/AES decrypt, unwrap_pdu, op-layer conversion, the receive loop over any datagram sequence) returns a value or a documented exception and never panics, for every byte string, session state and pending operation; termination by structural / well-founded recursion with the progress guards shown unreachable. Tied to /repo by running model and Rust harness on generated, mutated, malformed and exhaustive-small inputs; oracle: no panic, process alive.",
          TB + "block ciphers are parameters returning whole blocks; safe-Rust bounds checks; dev-profile overflow checks; socket / PyO3 glue not modelled.",
          "Lean 4 proof (totality by induction on the input) + differential correspondence + panic oracle", "§7 C01"),
- "C02": ("Lean theorems: for every value of every supported type, every X.690 content encoding of it (INTEGERs with up to 8 octets incl. redundant sign octets, unsigned 32/64-bit values with leading zero octets, sub-identifiers up to 2^32-1), every definite length form (short or long with 1..8 length octets) and every position (arbitrary following octets), SnmpValue::from_ber returns a value that IntoPyObject turns into exactly the Python object the encoding denotes (independent Spec.derOid / dotted / twos / beNat), consuming exactly the TLV; a varbind list of any length with per-item length forms is recovered in order; a one-varbind response delivers py(value) through get; REAL special values and NR2/NR3 text are passed exactly. The binary REAL form is mis-decoded: real_binary_wrong is the checked refutation, listed as known finding C02-D8b. E2E with ground-truth values through get / get_many / getnext / getbulk on every session kind and through the real sync and async clients.",
-         TB + "decimal REAL rounding is Rust's f64::from_str (compared with Python float()); PyO3 constructors; known finding C02-D8b (binary REAL).",
+ "C02": ("Lean theorems: for every value of every supported type, every X.690 content encoding of it (INTEGERs with up to 8 octets incl. redundant sign octets, unsigned 32/64-bit values with leading zero octets, sub-identifiers up to 2^32-1), every definite length form (short or long with 1..8 length octets) and every position (arbitrary following octets), SnmpValue::from_ber returns a value that IntoPyObject turns into exactly the Python object the encoding denotes (independent Spec.derOid / dotted / twos / beNat), consuming exactly the TLV; a varbind list of any length with per-item length forms is recovered in order; a one-varbind response delivers py(value) through get; REAL: special values, NR2/NR3 text passed exactly to the float parser, and the binary form (sign, base 2/8/16, scaling factor, two's complement exponent of 1..3 octets, mantissa up to 8 octets) decodes to ± N * 2^(E*log2 B + F) (real_binary_sound; repaired by fix 456348d). E2E with ground-truth values through get / get_many / getnext / getbulk on every session kind and through the real sync and async clients.",
+         TB + "the single rounding to binary64 (Rust f64::from_str for decimal text, SnmpReal::ldexp for the binary form) is compared with exact arithmetic (Python float() / Fraction) on every run, not proved; PyO3 constructors.",
          "Lean 4 proof (decoder soundness against an independent X.690 reading, induction over the varbind list) + ground-truth e2e oracle + correspondence", "§7 C02"),
  "C03": ("Lean theorems: for every v1/v2c session state, call and buffer contents the emitted datagram is exactly the independent minimal encoding (Lemmas.EncSpec) of version, community, PDU type of the call, masked request-id, zero error fields and the requested OIDs in order bound to NULL, or the call fails and nothing is sent; the result does not depend on what the pooled buffer held before (history_free, pool_reset); request ids are in 0..2^31-1; fetch / max-repetitions policy. v3: the same statement through pushV3_spec in the C09 theorems; every datagram of random multi-session histories is re-read by an independent strict decoder and replayed byte-for-byte (HMAC and ciphertext included) on the Lean model.",
          TB + "rand (ids are inputs), the pool mutex; the v3 wire theorem lives in C09 (auth_wire / noauth_wire).",
